@@ -24,10 +24,10 @@
       [stream_write_upd_cache]  the composition with CacheModel.gnmi_update1.
 
     Domain: target name not empty; the index path [p] is not empty and not
-    under "meta".  Outside it the models differ and StreamLts is the one that
-    does not follow the code: [stream_bare_target_differ] -- StreamLts stores a
-    leaf at the bare path [[name]], the cache rejects an empty index path
-    (since 30e1165; it used to panic). *)
+    under "meta".  On the empty index path (the bare target path [[name]])
+    the models agree as well -- everybody rejects it:
+    [stream_bare_target_agree] (this used to be a difference, repaired in
+    StreamLts by its owner). *)
 From Gnmi Require Import Base.Prelude CTree.CTreeModel CTree.CTreeProofs CTree.CTreeTheorems
   Path.PathModel Path.PathProofs Value.ValueModel Cache.CacheModel.
 From Gnmi Require Subscribe.SubModel Stream.StreamLts Stream.StreamProofs.
@@ -259,7 +259,8 @@ Proof.
   set (p := k :: rest) in *. set (n := SubModel.NT (snd (v, ts)) (name_pre name) [(names_gp p, fst (v, ts))] [] false).
   change n with (s_noti name p (v, ts)) in *. clear n.
   unfold StreamLts.write in Hw.
-  destruct (negb (StreamLts.target_ok (name :: p) && StreamLts.star_free (name :: p))); [discriminate|].
+  destruct (negb (StreamLts.target_ok (name :: p) && StreamLts.star_free (name :: p)
+                  && negb (Nat.eqb (List.length (name :: p)) 1))); [discriminate|].
   destruct (StreamLts.h_agree h && negb (StreamLts.agree_on st (name :: p))); [discriminate|].
   pose proof (HR p) as Hlk. unfold StreamLts.cache_at in Hlk.
   destruct (StreamLts.tlookup (name :: p) (StreamLts.st_tree st)) as [l|] eqn:Hl.
@@ -362,25 +363,32 @@ Proof.
     destruct (snd r) as [[nd|]|e|w0]; try (destruct Hres2 as (Hx & _); discriminate); [eauto|contradiction].
 Qed.
 
-(** * Where the models differ: the bare target path
+(** * The bare target path: agreement (formerly a difference)
 
-    [write] accepts [WUpd [name] v ts] (its guard is "has a target, no glob")
-    and attaches a leaf at the path consisting of the target name alone.  In
-    the code that is an update whose index path is empty:
-    Target.gnmiUpdate returns "invalid path" (30e1165; before that commit it
-    panicked on [path[0]]), which is what CacheModel and SubModel say.
-    StreamLts should refuse the operation ([None] or [WErr]) when the path has
-    length 1. *)
-Example stream_bare_target_differ :
-  let h := StreamLts.mkHyps false true in
-  let st0 := StreamLts.init 1 [] in
-  (exists st', StreamLts.write h st0 0%nat (StreamLts.WUpd ["dev"] 7 1) = Some (st', StreamLts.WOk) /\
-               StreamLts.cache_at st' ["dev"] = Some (7, 1)) /\
-  SubModel.gnmi_update1 None (s_noti "dev" [] (7, 1)) = SubModel.URes None [] true /\
-  snd (target_gnmi_update (new_target "dev" (Cfg 0 true [])) 0 (sub_notif (s_noti "dev" [] (7, 1))))
-  = GErr err_invalid_path.
+    Until StreamLts commit 79ffd2d [write] accepted [WUpd [name] v ts] and
+    attached a leaf at the path consisting of the target name alone; in the
+    code that is an update whose index path is empty, which Target.gnmiUpdate
+    rejects ("invalid path", 30e1165).  This file recorded the difference as
+    [stream_bare_target_differ]; StreamLts's owner has since added the guard,
+    and the three models now agree on every such input: StreamLts refuses the
+    operation, SubModel and CacheModel return the error and change nothing. *)
+Theorem stream_bare_target_agree h st w name v ts tr t now :
+  name <> "" ->
+  StreamLts.write h st w (StreamLts.WUpd [name] v ts) = None /\
+  SubModel.gnmi_update1 tr (s_noti name [] (v, ts)) = SubModel.URes tr [] true /\
+  gnmi_update1 t now (sub_notif (s_noti name [] (v, ts))) = (t, Err err_invalid_path).
 Proof.
-  cbv zeta. split; [|split]; [eexists; split|..]; vm_compute; reflexivity.
+  intros Hname. split; [|split].
+  - unfold StreamLts.write. cbn [List.length Nat.eqb negb]. now rewrite andb_false_r.
+  - unfold SubModel.gnmi_update1. cbn [s_noti SubModel.n_upds SubModel.n_prefix SubModel.n_atomic].
+    now rewrite (join_names name [] Hname).
+  - unfold gnmi_update1.
+    assert (Hu : n_upd (sub_notif (s_noti name [] (v, ts))) = [sub_upd (names_gp [], v)]) by reflexivity.
+    rewrite Hu.
+    pose proof (sub_unit_index (s_noti name [] (v, ts)) (names_gp []) v [] eq_refl (s_noti_wf _ _ _)) as Hi.
+    cbn [s_noti SubModel.n_prefix SubModel.n_atomic] in Hi. rewrite (join_names name [] Hname) in Hi.
+    destruct (unit_index (sub_notif (s_noti name [] (v, ts)))) as [p|e|x]; try discriminate.
+    cbn in Hi. inversion Hi; subst p. reflexivity.
 Qed.
 
 (** under "meta" the cache interprets the update (here: meta/sync wants a
